@@ -164,6 +164,96 @@ def rule_exc2(A: Analysis, rep):
     rep.expect_min("EXC2", 30)
 
 
+# attributes of built-in exceptions that may be None (typeshed: builtins.pyi)
+OPTIONAL_EXC_ATTRS = {
+    "SyntaxError": {"text", "lineno", "offset", "filename", "end_lineno", "end_offset"},
+    "IndentationError": {"text", "lineno", "offset", "filename", "end_lineno", "end_offset"},
+    "TabError": {"text", "lineno", "offset", "filename", "end_lineno", "end_offset"},
+    "OSError": {"errno", "strerror", "filename", "filename2"},
+    "FileNotFoundError": {"errno", "strerror", "filename", "filename2"},
+    "PermissionError": {"errno", "strerror", "filename", "filename2"},
+    "ImportError": {"name", "path"},
+    "ModuleNotFoundError": {"name", "path"},
+    "SystemExit": {"code"},
+}
+ALWAYS_OPTIONAL = {"__cause__", "__context__", "__traceback__"}
+
+
+def optional_exc_derefs(handler: ast.ExceptHandler) -> List[ast.AST]:
+    """Uses of `<caught>.<optional attribute>` that fail when the attribute is None — as the receiver of an attribute
+    access / subscript / call, as an arithmetic operand, iterated, or handed to len/int/float — without a test of
+    that attribute on the way (enclosing if / conditional expression / earlier `and` operand / assert)."""
+    if handler.name is None or handler.type is None:
+        return []
+    types = [norm(t).rsplit(".", 1)[-1] for t in (handler.type.elts if isinstance(handler.type, ast.Tuple) else [handler.type])]
+    opt = set(ALWAYS_OPTIONAL)
+    for t in types:
+        opt |= OPTIONAL_EXC_ATTRS.get(t, set())
+    parents: Dict[int, ast.AST] = {}
+    for b in handler.body:
+        for n in ast.walk(b):
+            for ch in ast.iter_child_nodes(n):
+                parents[id(ch)] = n
+    asserted: Set[str] = set()
+    out = []
+    for b in handler.body:
+        if isinstance(b, ast.Assert):
+            asserted |= {norm(x) for x in ast.walk(b.test) if isinstance(x, ast.Attribute)}
+        for n in ast.walk(b):
+            if not (isinstance(n, ast.Attribute) and isinstance(n.value, ast.Name) and n.value.id == handler.name and n.attr in opt):
+                continue
+            par = parents.get(id(n))
+            deref = (isinstance(par, ast.Attribute) and par.value is n) or (isinstance(par, ast.Subscript) and par.value is n) or \
+                (isinstance(par, ast.Call) and (par.func is n or (isinstance(par.func, ast.Name) and par.func.id in ("len", "int", "float", "iter", "sorted", "list") and n in par.args))) or \
+                (isinstance(par, ast.BinOp)) or (isinstance(par, ast.UnaryOp) and not isinstance(par.op, ast.Not)) or \
+                (isinstance(par, (ast.For, ast.comprehension)) and par.iter is n) or (isinstance(par, ast.Starred))
+            if not deref:
+                continue
+            txt = norm(n)
+            guarded = txt in asserted
+            cur: Optional[ast.AST] = n
+            while cur is not None and not guarded:
+                up = parents.get(id(cur))
+                if isinstance(up, (ast.If, ast.IfExp, ast.While)) and cur is not up.test and txt in norm(up.test):
+                    guarded = True
+                if isinstance(up, ast.BoolOp) and any(txt in norm(v) for v in up.values[:up.values.index(cur)] if v is not cur):
+                    guarded = True
+                if isinstance(up, ast.comprehension) and any(txt in norm(c_) for c_ in up.ifs):
+                    guarded = True
+                cur = up
+            if not guarded:
+                out.append(n)
+    return out
+
+
+def rule_exc3(A: Analysis, rep):
+    """A handler that turns an error into a diagnostic must not fail itself: no unguarded dereference of an attribute of
+    the caught exception that can be None (SyntaxError.text is None for errors found after parsing; .lineno too)."""
+    # the detector recognises the construct (kept as a positive example: the rule's expected count on the tree is zero)
+    sample = ast.parse("try:\n    pass\nexcept SyntaxError as ex:\n    a = ex.text.strip()\n    b = ex.text.strip() if ex.text else ''\n    c = (ex.text or '').strip()\n    d = f(ex.lineno)\n")
+    hs = [h for h in ast.walk(sample) if isinstance(h, ast.ExceptHandler)]
+    if [getattr(x, "lineno", 0) for x in optional_exc_derefs(hs[0])] != [4]:
+        raise AnalysisError("EXC3: the optional-attribute detector no longer recognises its positive example")
+    n_h = n_use = 0
+    for f in A.prog.scan_functions:
+        if f.fq.startswith(("conductor.envs", "conductor.explorer")):
+            continue
+        for h in walk_local(f.node):
+            if not isinstance(h, ast.ExceptHandler) or h.name is None:
+                continue
+            n_h += 1
+            n_use += sum(1 for b in h.body for x in ast.walk(b) if isinstance(x, ast.Attribute) and isinstance(x.value, ast.Name) and x.value.id == h.name)
+            bad = optional_exc_derefs(h)
+            for x in bad:
+                rep.bad("EXC3", "handler of %s in %s" % (norm(h.type), f.fq.replace("conductor.", "")), x,
+                        "`%s` can be None here: the handler would raise %s instead of the diagnostic (a traceback, not an ERROR line)" % (
+                            norm(x), "AttributeError/TypeError"))
+            if not bad:
+                rep.ok("EXC3", "handler of %s in %s" % (norm(h.type), f.fq.replace("conductor.", "")), h, "no unguarded use of an optional attribute", deep=False)
+    rep.notes.append("EXC3: %d named exception handlers, %d attribute reads of the caught exception" % (n_h, n_use))
+    rep.expect_min("EXC3", 8)
+
+
 # documented task types (website/docs): parameter -> (type text, default text | None for required)
 DOC_SCHEMA = {
     "run_command": {"name": ("str", None), "run": ("str", None), "parallelizable": ("bool", "False"), "args": ("list", "[]"), "options": ("dict", "{}"), "deps": ("[str]", "[]")},
@@ -183,7 +273,7 @@ def raw_types(A: Analysis):
     for c in vals[0].elts:
         if not (isinstance(c, ast.Call) and norm(c.func) == "RawTaskType"):
             raise AnalysisError("SCH1: unexpected element in _raw_task_types")
-        kw = {k.arg: k.value for k in c.keywords}
+        kw = A.kwmap(c)
         name = kw["name"].value
         schema = {norm(k).strip("'"): norm(v) for k, v in zip(kw["schema"].keys, kw["schema"].values)}
         defaults = {norm(k).strip("'"): norm(v) for k, v in zip(kw["defaults"].keys, kw["defaults"].values)}
@@ -315,13 +405,14 @@ def rule_val1(A: Analysis, rep):
         A.path_guards(g, g.entry, nm[0], lf, xstop=["args"]) == [frozenset({("t(TaskIdentifier.is_name_valid(args['name']))", False)})] and ok_merge
     rep.check(ok, "VAL1", "definitions are validated, named validly, defaults overridden by the user's values", lf.node, "", "load_from_cond_file no longer validates (schema, then name) the merged arguments")
     rt = A.fn("task_types.raw.RawTaskType.__init__")
-    rep.check(any(isinstance(s, ast.Assign) and norm(s.targets[0]) == "self._validator" and norm(s.value) == "generate_type_validator(name, schema)" for s in rt.node.body), "VAL1", "validator built from the type's own schema", rt.node, "", "the validator is not generated from (name, schema)", deep=False)
+    rep.check(any(isinstance(s, ast.Assign) and norm(s.targets[0]) == "self._validator" and norm(s.value) == "generate_type_validator(%s, %s)" % (rt.params[1], rt.params[2]) for s in rt.node.body), "VAL1", "validator built from the type's own schema", rt.node, "", "the validator is not generated from (name, schema)", deep=False)
     sh = A.fn(TL + "_wrap_task_function.shim")
     g = A.cfg(sh, "plain")
     dup = [n for n in g.nodes if n.kind == "stmt" and isinstance(n.ast, ast.Raise) and "DuplicateTaskName" in norm(n.ast)]
     store = [n for n in g.nodes if n.kind == "stmt" and isinstance(n.ast, ast.Assign) and norm(n.ast.targets[0]).startswith("self._tasks[")]
-    ok = len(dup) == 1 and len(store) == 1 and A.path_guards(g, g.entry, dup[0], sh) == [frozenset({("in(raw_task['name'],self._tasks)", True)})] and \
-        all(("in(raw_task['name'],self._tasks)", False) in c for c in A.path_guards(g, g.entry, store[0], sh))
+    ok = len(dup) == 1 and len(store) == 1 and A.path_guards(g, g.entry, dup[0], sh, xstop=["raw_task"]) == [frozenset({("in(raw_task['name'],self._tasks)", True)})] and \
+        all(("in(raw_task['name'],self._tasks)", False) in c for c in A.path_guards(g, g.entry, store[0], sh, xstop=["raw_task"])) and \
+        A.xtext(store[0].ast.targets[0].slice, sh, stop=["raw_task"]) == "raw_task['name']"
     rep.check(ok, "VAL1", "unique task names per COND file", sh.node, "", "a second task with the same name is no longer rejected before being stored")
     # primitives
     for cls, err in (("utils.run_arguments.RunArguments", "RunArgumentsNonPrimitiveValue"), ("utils.run_options.RunOptions", "RunOptionsNonPrimitiveValue")):
